@@ -877,7 +877,7 @@ theorem LifeInv.closed : Closed Wf LifeInv where
     h.of_same (fun _ => rfl) h.checked (CoreRel.refl rfl) rfl rfl (fun pc hpc => hpc)
   emitRead := fun _ _ _ _ h _ => h.ofEmit trivial
   emitIdle := fun _ _ _ _ h _ => h.ofEmit trivial
-  publish := fun _ _ now _ h => h.ofPublish now
+  publish := fun _ _ now _ h _ => h.ofPublish now
   fdtAdvance := fun _ _ now _ h _ _ => h.ofFdtAdvance now
   fileStart := fun _ _ _ _ tk _ hw h _ hfn => h.ofFileStart tk hw hfn
   pkt := fun _ _ _ _ _ _ _ _ _ hw h _ hf _ _ he => h.ofPkt hw hf he
@@ -896,7 +896,9 @@ theorem LifeInv.closedOps : ClosedOps Wf LifeInv where
       · exact h.ofEmit trivial
       · exact h.neutral (e := Ev.opTrigger t ts true) trivial rfl
           (CoreRel.updF t _ rfl (fun _ => rfl) (fun f => reset_core f ts)) rfl rfl (fun pc hpc => hpc)
-  emitPublish := fun _ _ _ _ h => h.ofEmit trivial
+  publishOp := fun s L now _ h =>
+    publishTry_elim (P := fun x => LifeInv x L) _ now ((h.ofEmit (e := Ev.opPublish now) trivial).ofPublish now)
+      (h.ofEmit trivial)
   complete := fun _ _ _ h =>
     h.of_same (fun _ => rfl) h.checked (CoreRel.refl rfl) rfl rfl (fun pc hpc => hpc)
 
